@@ -23,7 +23,7 @@ import (
 // of the control-flow graph through the loop must
 //
 //   (a) consume input on balance: the calls that take a token or a byte
-//       (tokenReader.Next/next/readByte, bufio's ReadRune/ReadByte/ReadBytes,
+//       (tokenReader.Next/next/readByte, bufio's ReadRune/ReadByte/ReadBytes/Discard(k),
 //       and package functions summarised to consume on every successful
 //       return) minus the calls that give one back (UnNext, unreadByte,
 //       UnreadRune, UnreadByte) is at least 1 on the cheapest path; or
@@ -80,6 +80,13 @@ func (e *progressEngine) callWeight(call *ast.CallExpr) int {
 				return 1
 			case "UnreadRune", "UnreadByte":
 				return -1
+			case "Discard":
+				// Discard(k) of a positive constant takes k bytes, or fails
+				if len(call.Args) == 1 {
+					if k, isC := constInt(e.info, call.Args[0]); isC && k > 0 {
+						return k
+					}
+				}
 			}
 			return 0
 		}
